@@ -14,6 +14,7 @@ B (ordered operator / comparison / call lists, operands numbered by declaration 
   `getProportions(devRewardCoin, w.Weight)`.
 -/
 import OsmoVerif.Model.Mint
+import OsmoVerif.Model.PoolIncentives
 import OsmoVerif.Gen.MintFn
 
 namespace OsmoVerif.Props.TieGenMint
@@ -45,5 +46,24 @@ theorem opsx_Keeper_distributeDeveloperRewards_pinned : Gen.Mint.opsx_Keeper_dis
      "getProportions(v5,v10.Weight)", "==(v10.Address,emptyWeightedAddressReceiver)", "FundCommunityPool(v0.communityPoolKeeper,v1,v12,_)",
      "SendCoinsFromModuleToAccount(v0.bankKeeper,v1,types.DeveloperVestingModuleAcctName,v13,v12)", "Neg(v8.Amount)",
      "AddSupplyOffset(v0.bankKeeper,v1,v2.Denom,_)"] := by decide
+
+/-- B — x/pool-incentives `Keeper.AllocateAsset` (mirrored by `PoolIncentives.allocateAsset` / `allocLoop` / `allocAmount`: the asset is
+the module account's whole balance, zero asset and zero TOTAL WEIGHT short-cuts, `asset.Mul(weight.Quo(totalWeight)).TruncateInt()`, the
+non-positive skip, gauge id 0 = community pool, `AddToGaugeRewards` otherwise). -/
+theorem opsx_Keeper_AllocateAsset_pinned : Gen.Mint.opsx_Keeper_AllocateAsset =
+    ["GetBalance(v0.bankKeeper,v1,v4,v3.MintedDenom)", "IsZero(v5.Amount)", "GetDistrInfo(v0,v1)", "IsZero(v6.TotalWeight)", "FundCommunityPoolFromModule(v0,v1,v5)", "ToLegacyDec(v5.Amount)", "ToLegacyDec(v6.TotalWeight)", "ToLegacyDec(v9.Weight)", "Quo(_,v8)", "Mul(v7,_)", "TruncateInt(_)", "IsPositive(v10)", "!", "==(v9.GaugeId,types.CommunityPoolDistributionGaugeID)", "FundCommunityPoolFromModule(v0,v1,_)", "AddToGaugeRewards(v0.incentivesKeeper,v1,_,v12,v9.GaugeId)"] := by decide
+
+/-- B — `Keeper.UpdateDistrRecords` (mirrored by `PoolIncentives.updateDistrRecords`: total re-summed from the existing records, the old
+weight SUBTRACTED before the new one is added when the gauge is present, zero weights filtered out, sorted by gauge id). -/
+theorem opsx_Keeper_UpdateDistrRecords_pinned : Gen.Mint.opsx_Keeper_UpdateDistrRecords =
+    ["GetDistrInfo(v0,v1)", "Add(v4,v5.Weight)", "validateRecords(v0,v1,v2)", "Sub(v4,v8.Weight)", "Add(v4,v7.Weight)", "Add(v4,v7.Weight)", "Equal(v8.Weight,osmomath.ZeroInt())", "!", "<(v10[v11].GaugeId,v10[v12].GaugeId)", "SliceStable(v10,_)", "SetDistrInfo(v0,v1,_)"] := by decide
+
+/-- B — `Keeper.ReplaceDistrRecords` (mirrored by `PoolIncentives.replaceDistrRecords`). -/
+theorem opsx_Keeper_ReplaceDistrRecords_pinned : Gen.Mint.opsx_Keeper_ReplaceDistrRecords =
+    ["GetDistrInfo(v0,v1)", "validateRecords(v0,v1,v2)", "Add(v5,v6.Weight)", "SetDistrInfo(v0,v1,v3)"] := by decide
+
+/-- B — `Keeper.validateRecords` (mirrored by `PoolIncentives.validateFrom`: descending id, non-zero id must be an existing perpetual gauge). -/
+theorem opsx_Keeper_validateRecords_pinned : Gen.Mint.opsx_Keeper_validateRecords =
+    ["<(v5.GaugeId,v3)", "!=(v5.GaugeId,0)", "GetGaugeByID(v0.incentivesKeeper,v1,v5.GaugeId)", "!"] := by decide
 
 end OsmoVerif.Props.TieGenMint
